@@ -55,5 +55,20 @@ PROPS["C06"] = {
         H("vlq_roundtrip_full", "sourcemap-writer", SW + "base64_vlq/mod.rs", "sourcemap_writer/vlq_h.rs", "verif_vlq",
           ["base64_vlq::base64_vlq"], "n: every isize (64 bit); loop unwound 15 > 13 digits, unwinding assertion on",
           timeout=300, mem_gb=6),
+        H("mapping_delta_k2", "sourcemap-writer", SW + "source_writer/mapping_writer.rs", "sourcemap_writer/mapping_h.rs", "verif_mapping",
+          ["MappingWriter::new", "MappingWriter::add_entry", "MappingWriter::into_buffer"],
+          "every sequence of 2 add_entry calls; all positions/indices symbolic in [0, 2^62); generated line non-decreasing",
+          timeout=600, mem_gb=8),
+        H("mapping_delta_k3", "sourcemap-writer", SW + "source_writer/mapping_writer.rs", "sourcemap_writer/mapping_h.rs", "verif_mapping",
+          ["MappingWriter::new", "MappingWriter::add_entry", "MappingWriter::into_buffer"],
+          "every sequence of 3 add_entry calls; all positions/indices symbolic in [0, 2^62); generated line non-decreasing",
+          timeout=900, mem_gb=10),
+        H("mapping_delta_k4", "sourcemap-writer", SW + "source_writer/mapping_writer.rs", "sourcemap_writer/mapping_h.rs", "verif_mapping",
+          ["MappingWriter::new", "MappingWriter::add_entry", "MappingWriter::into_buffer"],
+          "every sequence of 4 add_entry calls; all positions/indices symbolic in [0, 2^62); generated line non-decreasing",
+          timeout=900, mem_gb=10),
+        H("utf16_len_3chars", "sourcemap-writer", SW + "source_writer/utf16_len.rs", "sourcemap_writer/utf16_h.rs", "verif_utf16",
+          ["utf16_len"], "strings of 0..3 arbitrary Unicode scalar values (all 0x110000-0x800 of them per position)",
+          timeout=600, mem_gb=8),
     ],
 }
